@@ -210,6 +210,15 @@ def gen_include_scenario(rng, tier='quick'):
     for a, b in order:
         st = files[a]['stmts']
         st.insert(rng.randrange(len(st) + 1), ['include', b, files[b]['name']])
+    if rng.random() < 0.12:
+        # a cycle back to the main file that an include guard keeps from going round a second time: the main file is still
+        # a file that is included more than once
+        kind = 'guarded-cycle'
+        for i in range(n):
+            files[i]['stmts'] = [x for x in files[i]['stmts'] if x[0] != 'include']
+        files[0]['stmts'] = [['if', ['ifndef', 'ONCE_ONLY']], ['define', 'ONCE_ONLY', '1'], ['include', 1, files[1]['name']], ['endif']] + files[0]['stmts']
+        files[1]['stmts'].append(['include', 0, files[0]['name']])
+        files = files[:2]
     for i in range(n):
         files[i]['stmts'].append(data())
     return {'cfg': cfg, 'files': files, 'include_dirs': ['lib'], 'extra_files': [], 'fault': 'include-' + kind, 'opts': _opts(rng, cfg)}
